@@ -28,10 +28,14 @@ type saleEv struct {
 	Amount   *big.Int `json:"amount_grain"`
 	AmtKind  string   `json:"amount_kind"`
 	Contract string   `json:"contract"`
+	CKind    string   `json:"contract_kind,omitempty"` // how the contract address relates to the configuration (authz.go)
+	Phantom  bool     `json:"phantom_chain,omitempty"` // the chain reference is no chain the bridge knows
+	Viable   bool     `json:"viable_but_for_contract,omitempty"`
 	Class    string   `json:"class"`
 	Why      string   `json:"why"`
 	Accepted bool     `json:"accepted"`
 	canon    string
+	compass  string // compass id to report (default: the one of e.Chain)
 }
 
 func (e saleEv) price() *big.Int { return new(big.Int).Mul(e.Amount, million) }
@@ -81,14 +85,29 @@ func (m *mon) lastObserved(ch string) uint64 {
 }
 
 // classifySale: what the property statement says about this event in the given (running) state.
+// The authorisation of the reporting contract is judged first (authz.go: classifyContract), then
+// everything else; e.Viable records that the contract is the ONLY thing standing in the way.
 func (m *mon) classifySale(e *saleEv, st *obs, lic map[string]bool, earlierAccepted bool) (string, string) {
-	cfg := m.L.cfg
-	contract, has := cfg.Contracts[e.Chain]
+	aClass, aWhy := m.classifyContract(e)
+	rClass, rWhy := m.classifyRest(e, st, lic, earlierAccepted)
+	e.Viable = false
 	switch {
-	case !has:
-		return mustFail, "no-sale-contract"
-	case !strings.EqualFold(contract, e.Contract):
-		return mustFail, "wrong-sale-contract"
+	case aClass == mustFail:
+		e.Viable = rClass == shouldSucceed
+		return aClass, aWhy
+	case rClass == mustFail || rWhy == "module-address-without-account" || rWhy == "zero-amount":
+		return rClass, rWhy
+	case aClass == either:
+		return aClass, aWhy
+	}
+	return rClass, rWhy
+}
+
+// classifyRest: everything but the sale contract - fee granter, funders, buyer address, amount,
+// funder balances.
+func (m *mon) classifyRest(e *saleEv, st *obs, lic map[string]bool, earlierAccepted bool) (string, string) {
+	cfg := m.L.cfg
+	switch {
 	case cfg.Feegranter == "":
 		return mustFail, "no-fee-granter"
 	case len(cfg.Funders) == 0:
@@ -126,8 +145,6 @@ func (m *mon) classifySale(e *saleEv, st *obs, lic map[string]bool, earlierAccep
 		return mustFail, "no-funded-funder"
 	case e.Amount.Sign() == 0:
 		return either, "zero-amount"
-	case contract != e.Contract:
-		return either, "contract-spelled-differently"
 	case !allSpendable || earlierAccepted:
 		return either, "funder-situation-open"
 	}
@@ -217,8 +234,15 @@ func (m *mon) newSaleEvents() []*saleEv {
 				}
 			}
 		}
+		ckind := ""
+		if r.Intn(100) < 10 {
+			// a boundary value of the address field (empty, zero, blank, case / prefix variants ...)
+			bs := m.contractBoundaries(ch)
+			b := bs[r.Intn(len(bs))]
+			contract, ckind = b.Value, b.Kind
+		}
 		m.ethH += uint64(1 + r.Intn(5))
-		evs = append(evs, &saleEv{Chain: ch, Nonce: last + 1 + uint64(i), EthH: m.ethH, Client: client, Form: form, Amount: amt, AmtKind: kind, Contract: contract})
+		evs = append(evs, &saleEv{Chain: ch, Nonce: last + 1 + uint64(i), EthH: m.ethH, Client: client, Form: form, Amount: amt, AmtKind: kind, Contract: contract, CKind: ckind})
 	}
 	return evs
 }
@@ -227,7 +251,11 @@ func (m *mon) newSaleEvents() []*saleEv {
 func (m *mon) submit(evs []*saleEv, voters []*chain.Account) *chain.BlockResult {
 	for _, v := range voters {
 		for i, e := range evs {
-			msg := world.MsgSaleClaim(v, e.Chain, m.w.Compass[e.Chain], e.Nonce, e.EthH, e.Client, sdkmath.NewIntFromBigInt(e.Amount), e.Contract)
+			compass := m.w.Compass[e.Chain]
+			if e.compass != "" {
+				compass = e.compass
+			}
+			msg := world.MsgSaleClaim(v, e.Chain, compass, e.Nonce, e.EthH, e.Client, sdkmath.NewIntFromBigInt(e.Amount), e.Contract)
 			if err := m.c.QueueTx(v, uint64(i), msg); err != nil {
 				m.rec.Inconclusive("cannot sign claim: " + err.Error())
 				m.dead = true
@@ -264,9 +292,12 @@ func (m *mon) claimsOK(br *chain.BlockResult) bool {
 	return true
 }
 
-func (m *mon) opSale() {
+func (m *mon) opSale() { m.runSale(m.newSaleEvents(), true) }
+
+// runSale: every validator reports the given events (one block, or a minority first), the
+// attestations are tallied, the outcome is evaluated against the statement.
+func (m *mon) runSale(evs []*saleEv, minorityVariant bool) {
 	r := m.r
-	evs := m.newSaleEvents()
 	for _, e := range evs {
 		if a, err := sdk.AccAddressFromBech32(e.Client); err == nil {
 			e.canon = a.String()
@@ -286,7 +317,7 @@ func (m *mon) opSale() {
 	op := m.logOp(map[string]any{"op": "sale-claims", "events": evs})
 
 	// sometimes a minority (<= 66 % of the power) reports first: nothing may happen yet
-	if r.Intn(5) == 0 {
+	if minorityVariant && r.Intn(5) == 0 {
 		var first, rest []*chain.Account
 		cum := int64(0)
 		for _, v := range voters {
@@ -363,6 +394,7 @@ func (m *mon) evaluateSale(evs []*saleEv, pre *obs, preDump map[string]map[strin
 		}
 		m.rec.Count("sale_events", 1)
 		m.rec.Count("sale_events_"+e.Class, 1)
+		m.countAuthz(e)
 		if e.Accepted {
 			anyAccepted = true
 			accepted = append(accepted, e)
@@ -398,7 +430,7 @@ func (m *mon) evaluateSale(evs []*saleEv, pre *obs, preDump map[string]map[strin
 				m.unexpectedReject(map[string]any{"sale": e}, "attested sale had no effect")
 			}
 		}
-		m.distinct("sale", e.Class+":"+e.Why, ok(e.Accepted), e.Form+"|"+e.AmtKind)
+		m.distinct("sale", e.Class+":"+e.Why, ok(e.Accepted), e.Form+"|"+e.AmtKind+"|"+e.CKind)
 	}
 	op["events"] = evs
 	if m.dead {
